@@ -41,16 +41,16 @@ Proof. exact solvable_not_refuted. Qed.
    clause-for-clause equality on every synchronous run) ---- *)
 From Resolvo Require Import Async.EncoderProofs.
 
-(* for every provider, problem, cache contents, trail history and sequence of
-   encode requests, every clause the encoder adds is a fact ... *)
-Theorem C02_encoder_adds_facts : forall U P, WF U -> forall fuel c evs st,
-  enc_solve U P fuel (estate0 c) [] evs = Some st ->
+(* for every provider, problem, cache contents, trail history, sequence of
+   encode requests and completion order, every clause the encoder adds is a fact ... *)
+Theorem C02_encoder_adds_facts : forall U P, WF U -> forall c evs st work,
+  enc_run U P (estate0 c) [] [] evs = Some (st, work) ->
   forall x, In x (e_db st) -> factb U P (trk_idx (e_trk st)) x = true.
 Proof. exact enc_facts. Qed.
 
 (* ... so the encoder never excludes a valid selection: Unsolvable, which is
    derived from these clauses alone, can only be reported when there is none *)
-Theorem C02_encoder_sound : forall U P, WF U -> forall fuel c evs st S,
-  enc_solve U P fuel (estate0 c) [] evs = Some st -> valid U P S [] ->
+Theorem C02_encoder_sound : forall U P, WF U -> forall c evs st work S,
+  enc_run U P (estate0 c) [] [] evs = Some (st, work) -> valid U P S [] ->
   forall x, In x (e_db st) -> cl_true (a_sel U (trk_idx (e_trk st)) S) (cl_lits x) = true.
 Proof. exact enc_sound. Qed.
